@@ -386,8 +386,9 @@ def main(run):
     thorough = run.tier == "thorough"
     run.proof_step(leancheck=thorough)
     run.cov["rule"] = (
-        "supercell matrices: every integer matrix with entries in {-1,0,1} and det 1..4 (quick; 5904 matrices, exhaustive) / a seeded "
-        "sample of the matrices with entries in {-1,0,1,2} and |det| <= 8 plus all of the former (thorough), each with the classic and "
+        "supercell matrices: every integer matrix with entries in {-1,0,1} and det 1..4 (quick; 5904 matrices, exhaustive) plus a seeded "
+        "sample of those with entries in {-1,0,1,2}, |det| <= 8; thorough: ALL 192144 matrices with entries in {-1,0,1,2} and 1 <= |det| <= 8 "
+        "through SNF3x3 and all 96072 with det 1..8 through both supercell constructions; each with the classic and "
         "the Smith-normal-form construction on cells with rational positions (denominators 16 for generated cells, <= 300 for prototypes; prototypes of all centrings and random "
         "triclinic cells with interleaved species, custom masses, magnetic moments, positions outside [0,1)); primitive matrices "
         "P/F/I/A/C/R/auto. Compared exactly with the Lean model: SNF D,P,Q, xgcd triples, index maps, permutations; positions as "
@@ -409,10 +410,10 @@ def main(run):
     # ------------------------------------------------------------ Xgcd, SNF3x3
     quick_mats = all_matrices((-1, 0, 1), 1, 4)
     snf_mats = list(quick_mats)
+    big = []
     if thorough:
-        big = all_matrices((-1, 0, 1, 2), 1, 8, absdet=True)
-        rng.shuffle(big)
-        snf_mats += big[:30000]
+        big = all_matrices((-1, 0, 1, 2), 1, 8, absdet=True)  # bounded-exhaustive: 192144 matrices
+        snf_mats = list(big)  # contains the quick set
     else:
         for _ in range(1500):
             while True:
@@ -420,12 +421,12 @@ def main(run):
                 if 1 <= abs(int(round(np.linalg.det(m)))) <= 8:
                     break
             snf_mats.append(m)
-        for _ in range(300):
-            while True:
-                m = np.array([[rng.randint(-9, 9) for _ in range(3)] for _ in range(3)])
-                if int(round(np.linalg.det(m))) != 0:
-                    break
-            snf_mats.append(m)
+    for _ in range(3000 if thorough else 300):
+        while True:
+            m = np.array([[rng.randint(-9, 9) for _ in range(3)] for _ in range(3)])
+            if int(round(np.linalg.det(m))) != 0:
+                break
+        snf_mats.append(m)
     for m in snf_mats:
         s = SNF3x3(m)
         quiet(s.run)
@@ -603,8 +604,18 @@ def main(run):
         do_supercell(cells["tric3"], m, with_model=True)
     for m in mats:
         do_supercell(rcells[0], m, with_model=False)
+    if thorough:
+        # bounded-exhaustive: every matrix with entries in {-1,0,1,2} and det 1..8, both routes, tiling oracle
+        nneg = 0
+        for m in big:
+            d = int(round(np.linalg.det(m)))
+            if d > 0 and (np.abs(m) > 1).any():
+                do_supercell(cells["tric2mag"], m, with_model=False)
+            elif d < 0 and nneg < 3000 and rng.random() < 0.05:
+                nneg += 1
+                do_supercell(cells["tric2mag"], m, with_model=False)
     # (b) sampled larger matrices
-    nbig = 4000 if thorough else 250
+    nbig = 6000 if thorough else 250
     pool = [cells[n] for n in ("tric3", "tric2mag", "cscl", "hcp", "nacl_interleaved")] + rcells
     for _ in range(nbig):
         while True:
@@ -641,6 +652,29 @@ def main(run):
         c = cells[name]
         for S in [np.eye(3, dtype=int), np.diag([2, 2, 1]), np.array([[1, 1, 0], [0, 1, 0], [0, 0, 2]])]:
             do_supercell(c, S, with_model=True, prim=cen)
+    # near-tolerance stream: positions off by 1e-7 (symprec is 1e-5) - only "rejected or correct" is asserted, no model comparison
+    from phonopy.structure.atoms import PhonopyAtoms
+
+    for name, cen in prim_cases[:8] if not thorough else prim_cases:
+        c = cells[name]
+        a0 = c["atoms"]
+        noisy = PhonopyAtoms(cell=a0.cell, symbols=a0.symbols,
+                             scaled_positions=a0.scaled_positions + np.array([[rng.uniform(-1e-7, 1e-7) for _ in range(3)] for _ in range(len(a0))]))
+        for S in (np.diag([2, 1, 1]), np.array([[1, 1, 0], [0, 1, 0], [0, 0, 1]])):
+            for old in (True, False):
+                sc, exc = try_impl(get_supercell, noisy, S, is_old_style=old)
+                run.count("near-tolerance stream")
+                run.count("oracle-near-tolerance", section="oracle")
+                case = dict(cell=name, noise="1e-7", supercell_matrix=S.tolist(), is_old_style=old)
+                if exc is not None:
+                    continue
+                for kl, what in oracle_supercell(noisy, S, sc):
+                    run.violation("get_supercell(is_old_style=%s)" % old, kl + "-near-tolerance", what, case)
+                pmf = np.linalg.inv(S) @ ffloat(CENTRING[cen])
+                pr, exc = try_impl(get_primitive, sc, pmf)
+                if exc is None:
+                    for kl, what in oracle_primitive(sc, pmf, pr):
+                        run.violation("get_primitive", kl + "-near-tolerance", what, case)
     # explicit primitive matrices: unit cell = supercell of a smaller cell
     for S0 in ([[2, 0, 0], [0, 1, 0], [0, 0, 1]], [[1, 1, 0], [-1, 1, 0], [0, 0, 1]], [[1, 0, 1], [0, 2, 0], [0, 1, 1]]):
         base = cells["tric3"]
@@ -763,7 +797,8 @@ def main(run):
             run.broke("correspondence", "get_primitive: positions differ from the model by %.3g (mod 1)" % dd, info)
     run.cov["correspondence"]["compared"] = ncmp
     run.cov["exhaustive"] = False
-    run.cov["exhaustive_part"] = "all %d integer matrices with entries in {-1,0,1} and det 1..4, both routes, 2 cells" % len(quick_mats)
+    run.cov["exhaustive_part"] = ("all %d integer matrices with entries in {-1,0,1} and det 1..4, both routes, 2 cells" % len(quick_mats)
+                                  + ("; all %d matrices with entries in {-1,0,1,2}, 1<=|det|<=8 (SNF3x3), det 1..8 (supercells)" % len(big) if thorough else ""))
     run.cov["partial"] = [
         "FullStatement_frame (classic route: the surrounding frame meets every residue class for EVERY integer matrix) is not a theorem; "
         "covered by the certificate isCompleteResidueSystem evaluated in Lean on the implementation's atoms and by the tiling oracle",
